@@ -175,15 +175,23 @@ pub fn install_panic_hook() {
             eprintln!("{}", std::backtrace::Backtrace::force_capture());
             return;
         }
+        // a panic located in the library itself is attributed by its location (cached); a panic
+        // located in a dependency (cbor_event, alloc, core, ...) can be reached from many library
+        // functions, so its backtrace is walked every time
+        let in_lib = loc.contains("/rust/src/");
         let key = format!("{}|{}", loc, norm_msg(&msg));
         let site = SITE_CACHE.with(|c| {
             let mut c = c.borrow_mut();
-            if let Some(s) = c.get(&key) {
-                return s.clone();
+            if in_lib {
+                if let Some(s) = c.get(&key) {
+                    return s.clone();
+                }
             }
             let bt = std::backtrace::Backtrace::force_capture().to_string();
             let s = site_from_backtrace(&bt);
-            c.insert(key.clone(), s.clone());
+            if in_lib {
+                c.insert(key.clone(), s.clone());
+            }
             s
         });
         LAST_PANIC.with(|p| *p.borrow_mut() = Some((loc, msg, site)));
